@@ -1,1 +1,230 @@
-//! oracle for kuznyechik — to be written from the specification
+//! GOST R 34.12-2015 "Kuznyechik" (128-bit block, 256-bit key), written from the standard's description.
+//!
+//! A 128-bit word a = a15 || ... || a0 is kept as a byte array with a15 FIRST (index 0) and a0 last (index 15),
+//! which is the order in which the standard prints blocks and keys (and the byte order of the crate's API).
+//!   S  : every byte through pi
+//!   l(a15, ..., a0) = 148*a15 + 32*a14 + 133*a13 + 16*a12 + 194*a11 + 192*a10 + 1*a9 + 251*a8 + 1*a7 + 192*a6
+//!                     + 194*a5 + 16*a4 + 133*a3 + 32*a2 + 148*a1 + 1*a0      in GF(2)[x] / (x^8 + x^7 + x^6 + x + 1)
+//!   R(a15 || ... || a0) = l(a15, ..., a0) || a15 || ... || a1,   L = R^16
+//!   X[k](a) = k ^ a
+//!   C_i = L(Vec_128(i)), i = 1..32
+//!   F[k](a1, a0) = (L S X[k](a1) ^ a0, a1)
+//!   K1 || K2 = key;  (K_{2i+1}, K_{2i+2}) = F[C_{8(i-1)+8}] ... F[C_{8(i-1)+1}] (K_{2i-1}, K_{2i}),  i = 1..4
+//!   E(a) = X[K10] L S X[K9] ... L S X[K1] (a)
+//!   D(a) = X[K1] S^-1 L^-1 X[K2] ... S^-1 L^-1 X[K10] (a)
+//! pi is given in the standard as a table only (data; copied from kuznyechik/src/consts.rs `P`); pi^-1 is derived
+//! from it, the field arithmetic and all constants C_i are computed.
+
+pub type Block = [u8; 16];
+
+pub const PI: [u8; 256] = [
+    0xFC, 0xEE, 0xDD, 0x11, 0xCF, 0x6E, 0x31, 0x16, 0xFB, 0xC4, 0xFA, 0xDA, 0x23, 0xC5, 0x04, 0x4D,
+    0xE9, 0x77, 0xF0, 0xDB, 0x93, 0x2E, 0x99, 0xBA, 0x17, 0x36, 0xF1, 0xBB, 0x14, 0xCD, 0x5F, 0xC1,
+    0xF9, 0x18, 0x65, 0x5A, 0xE2, 0x5C, 0xEF, 0x21, 0x81, 0x1C, 0x3C, 0x42, 0x8B, 0x01, 0x8E, 0x4F,
+    0x05, 0x84, 0x02, 0xAE, 0xE3, 0x6A, 0x8F, 0xA0, 0x06, 0x0B, 0xED, 0x98, 0x7F, 0xD4, 0xD3, 0x1F,
+    0xEB, 0x34, 0x2C, 0x51, 0xEA, 0xC8, 0x48, 0xAB, 0xF2, 0x2A, 0x68, 0xA2, 0xFD, 0x3A, 0xCE, 0xCC,
+    0xB5, 0x70, 0x0E, 0x56, 0x08, 0x0C, 0x76, 0x12, 0xBF, 0x72, 0x13, 0x47, 0x9C, 0xB7, 0x5D, 0x87,
+    0x15, 0xA1, 0x96, 0x29, 0x10, 0x7B, 0x9A, 0xC7, 0xF3, 0x91, 0x78, 0x6F, 0x9D, 0x9E, 0xB2, 0xB1,
+    0x32, 0x75, 0x19, 0x3D, 0xFF, 0x35, 0x8A, 0x7E, 0x6D, 0x54, 0xC6, 0x80, 0xC3, 0xBD, 0x0D, 0x57,
+    0xDF, 0xF5, 0x24, 0xA9, 0x3E, 0xA8, 0x43, 0xC9, 0xD7, 0x79, 0xD6, 0xF6, 0x7C, 0x22, 0xB9, 0x03,
+    0xE0, 0x0F, 0xEC, 0xDE, 0x7A, 0x94, 0xB0, 0xBC, 0xDC, 0xE8, 0x28, 0x50, 0x4E, 0x33, 0x0A, 0x4A,
+    0xA7, 0x97, 0x60, 0x73, 0x1E, 0x00, 0x62, 0x44, 0x1A, 0xB8, 0x38, 0x82, 0x64, 0x9F, 0x26, 0x41,
+    0xAD, 0x45, 0x46, 0x92, 0x27, 0x5E, 0x55, 0x2F, 0x8C, 0xA3, 0xA5, 0x7D, 0x69, 0xD5, 0x95, 0x3B,
+    0x07, 0x58, 0xB3, 0x40, 0x86, 0xAC, 0x1D, 0xF7, 0x30, 0x37, 0x6B, 0xE4, 0x88, 0xD9, 0xE7, 0x89,
+    0xE1, 0x1B, 0x83, 0x49, 0x4C, 0x3F, 0xF8, 0xFE, 0x8D, 0x53, 0xAA, 0x90, 0xCA, 0xD8, 0x85, 0x61,
+    0x20, 0x71, 0x67, 0xA4, 0x2D, 0x2B, 0x09, 0x5B, 0xCB, 0x9B, 0x25, 0xD0, 0xBE, 0xE5, 0x6C, 0x52,
+    0x59, 0xA6, 0x74, 0xD2, 0xE6, 0xF4, 0xB4, 0xC0, 0xD1, 0x66, 0xAF, 0xC2, 0x39, 0x4B, 0x63, 0xB6,
+];
+
+/// pi^-1, derived from pi (pi is a permutation).
+pub const PI_INV: [u8; 256] = {
+    let mut t = [0u8; 256];
+    let mut i = 0;
+    while i < 256 {
+        t[PI[i] as usize] = i as u8;
+        i += 1;
+    }
+    t
+};
+
+/// Coefficients of l in the order a15, a14, ..., a0 (= byte index 0, 1, ..., 15).
+pub const LC: [u8; 16] = [148, 32, 133, 16, 194, 192, 1, 251, 1, 192, 194, 16, 133, 32, 148, 1];
+
+/// Multiplication in GF(2^8) = GF(2)[x] / (x^8 + x^7 + x^6 + x + 1)   (0x1C3), schoolbook: carry-less product,
+/// then reduction of the degree 14..8 terms.
+pub const fn gf_mul(a: u8, b: u8) -> u8 {
+    let mut p: u16 = 0;
+    let mut i = 0;
+    while i < 8 {
+        if (b >> i) & 1 == 1 {
+            p ^= (a as u16) << i;
+        }
+        i += 1;
+    }
+    let mut d = 14;
+    while d >= 8 {
+        if (p >> d) & 1 == 1 {
+            p ^= 0x1C3u16 << (d - 8);
+        }
+        d -= 1;
+    }
+    p as u8
+}
+
+pub fn s(a: &Block) -> Block {
+    let mut o = [0u8; 16];
+    let mut i = 0;
+    while i < 16 {
+        o[i] = PI[a[i] as usize];
+        i += 1;
+    }
+    o
+}
+pub fn s_inv(a: &Block) -> Block {
+    let mut o = [0u8; 16];
+    let mut i = 0;
+    while i < 16 {
+        o[i] = PI_INV[a[i] as usize];
+        i += 1;
+    }
+    o
+}
+
+pub const fn l_func(a: &Block) -> u8 {
+    let mut x = 0u8;
+    let mut i = 0;
+    while i < 16 {
+        x ^= gf_mul(LC[i], a[i]);
+        i += 1;
+    }
+    x
+}
+/// R(a15 || ... || a0) = l(a15..a0) || a15 || ... || a1
+pub const fn r(a: &Block) -> Block {
+    let mut o = [0u8; 16];
+    o[0] = l_func(a);
+    let mut i = 1;
+    while i < 16 {
+        o[i] = a[i - 1];
+        i += 1;
+    }
+    o
+}
+/// R^-1(a15 || ... || a0) = a14 || ... || a0 || l(a14, ..., a0, a15)
+pub const fn r_inv(a: &Block) -> Block {
+    let mut t = [0u8; 16];
+    let mut i = 0;
+    while i < 15 {
+        t[i] = a[i + 1];
+        i += 1;
+    }
+    t[15] = a[0];
+    let x = l_func(&t);
+    t[15] = x;
+    t
+}
+pub const fn l(a: &Block) -> Block {
+    let mut v = *a;
+    let mut i = 0;
+    while i < 16 {
+        v = r(&v);
+        i += 1;
+    }
+    v
+}
+pub const fn l_inv(a: &Block) -> Block {
+    let mut v = *a;
+    let mut i = 0;
+    while i < 16 {
+        v = r_inv(&v);
+        i += 1;
+    }
+    v
+}
+pub fn x(k: &Block, a: &Block) -> Block {
+    let mut o = [0u8; 16];
+    let mut i = 0;
+    while i < 16 {
+        o[i] = k[i] ^ a[i];
+        i += 1;
+    }
+    o
+}
+/// L S
+pub fn ls(a: &Block) -> Block {
+    l(&s(a))
+}
+/// S^-1 L^-1
+pub fn s_inv_l_inv(a: &Block) -> Block {
+    s_inv(&l_inv(a))
+}
+
+/// C_i = L(Vec_128(i)), i = 1..=32
+pub const fn c(i: usize) -> Block {
+    let mut v = [0u8; 16];
+    v[15] = i as u8;
+    l(&v)
+}
+
+/// Round keys K1..K10 (index 0..9).  `ls` is the composite L S (leaf: `transform(., ENC_TABLE)` / `lsx` without the
+/// key addition in the crate's back ends).
+pub fn key_schedule_with<LS: Fn(&Block) -> Block>(key: &[u8; 32], ls: LS) -> [Block; 10] {
+    let mut k = [[0u8; 16]; 10];
+    let mut a1 = [0u8; 16];
+    let mut a0 = [0u8; 16];
+    let mut i = 0;
+    while i < 16 {
+        a1[i] = key[i];
+        a0[i] = key[16 + i];
+        i += 1;
+    }
+    k[0] = a1;
+    k[1] = a0;
+    let mut g = 1;
+    while g <= 4 {
+        let mut j = 1;
+        while j <= 8 {
+            // F[C](a1, a0) = (LSX[C](a1) ^ a0, a1)
+            let n = x(&ls(&x(&c(8 * (g - 1) + j), &a1)), &a0);
+            a0 = a1;
+            a1 = n;
+            j += 1;
+        }
+        k[2 * g] = a1;
+        k[2 * g + 1] = a0;
+        g += 1;
+    }
+    k
+}
+
+/// E(a) = X[K10] LSX[K9] ... LSX[K1](a)
+pub fn encrypt_with<LS: Fn(&Block) -> Block>(rk: &[Block; 10], a: &Block, ls: LS) -> Block {
+    let mut v = *a;
+    let mut i = 0;
+    while i < 9 {
+        v = ls(&x(&rk[i], &v));
+        i += 1;
+    }
+    x(&rk[9], &v)
+}
+
+/// D(a) = X[K1] S^-1 L^-1 X[K2] ... S^-1 L^-1 X[K10](a), with S^-1 and L^-1 as separate parameters.
+pub fn decrypt_with<SI: Fn(&Block) -> Block, LI: Fn(&Block) -> Block>(rk: &[Block; 10], a: &Block, si: SI, li: LI) -> Block {
+    let mut v = *a;
+    let mut i = 9;
+    while i >= 1 {
+        v = si(&li(&x(&rk[i], &v)));
+        i -= 1;
+    }
+    x(&rk[0], &v)
+}
+
+pub fn key_schedule(key: &[u8; 32]) -> [Block; 10] {
+    key_schedule_with(key, ls)
+}
+pub fn encrypt(key: &[u8; 32], a: &Block) -> Block {
+    encrypt_with(&key_schedule(key), a, ls)
+}
+pub fn decrypt(key: &[u8; 32], a: &Block) -> Block {
+    decrypt_with(&key_schedule(key), a, s_inv, l_inv)
+}
